@@ -23,37 +23,64 @@ def hasMeta_single_statement : Prop :=
   ∀ (m : Mode) (p t : Str), m.entire = true → hasMeta p = false → globMatch m p t = true →
     sameText m t (unescape p)
 
-/-- The exact extra hypothesis: the mode has no extended operators, or the text has no
-    `!(`, `+(`, `@(` (the operators QuoteMeta leaves unescaped). -/
-theorem quoteMeta_exact_partial (m : Mode) (s t : Str) (he : m.entire = true)
+/-- What "the pattern matches t as the text s" means in a mode: with EntireString, t is s (up to
+    case when the mode folds case); without it — the regexp is unanchored — s occurs in t. -/
+def matchedText (m : Mode) (t s : Str) : Prop :=
+  if m.entire = true then sameText m t s else ∃ a b c, t = a ++ b ++ c ∧ sameText m b s
+
+/-- QuoteMeta(s) matches s and nothing else — in **every** mode, anchored or not.  The one
+    remaining hypothesis is exact (finding C18-quotemeta-extglob): the mode has no extended
+    operators, or the text has no `!(`, `+(`, `@(` (the operators QuoteMeta leaves unescaped). -/
+theorem quoteMeta_exact_partial (m : Mode) (s t : Str)
     (hx : m.ext = false ∨ hasExtOpener s = false) :
-    globMatch m (quoteMeta s) t = true ↔ sameText m t s := by
-  unfold globMatch parseGlob
+    globMatch m (quoteMeta s) t = true ↔ matchedText m t s := by
+  unfold globMatch parseGlob matchedText
   rw [parseSeq_quoteMeta m s _ 0 (Nat.lt_succ_of_le (quoteMeta_length_ge s)) hx]
-  simp only [he, if_true]
-  rw [gmatch_full_iff, GDen_litSeq m s 0 true t (fun _ => .inl rfl)]
+  cases he : m.entire with
+  | true =>
+    simp only [if_true]
+    rw [gmatch_full_iff, GDen_litSeq m s 0 true t (fun _ => .inl rfl)]
+  | false =>
+    simp only [Bool.false_eq_true, if_false]
+    rw [search_iff]
+    constructor
+    · rintro ⟨a, b, c, h, hd⟩
+      exact ⟨a, b, c, h, (GDen_litSeq m s 0 true b (fun _ => .inl rfl)).mp hd⟩
+    · rintro ⟨a, b, c, h, hd⟩
+      exact ⟨a, b, c, h, (GDen_litSeq m s 0 true b (fun _ => .inl rfl)).mpr hd⟩
 
 /-- Without case folding: QuoteMeta(s) matches exactly s. -/
 theorem quoteMeta_exact_partial_eq (m : Mode) (s t : Str) (he : m.entire = true)
     (hn : m.nocase = false) (hx : m.ext = false ∨ hasExtOpener s = false) :
     globMatch m (quoteMeta s) t = true ↔ t = s := by
-  rw [quoteMeta_exact_partial m s t he hx, sameText_eq hn]
+  rw [quoteMeta_exact_partial m s t hx, ← sameText_eq hn]
+  simp [matchedText, he]
 
 /-- QuoteMeta(s) has no metacharacters according to HasMeta. -/
 theorem quoteMeta_no_meta (s : Str) : hasMeta (quoteMeta s) = false :=
   hasMetaAux_quoteMeta s
 
-/-- The exact extra hypothesis: the mode has no extended operators, or the pattern has no
-    unescaped `?(`, `*(`, `+(`, `@(`, `!(`. -/
-theorem hasMeta_single_partial (m : Mode) (p t : Str) (he : m.entire = true)
+/-- A pattern for which HasMeta is false matches at most its unescaped text — in **every** mode
+    (anchored: t is that text; unanchored: that text occurs in t).  The one remaining hypothesis
+    is exact (finding C18-hasmeta-extglob): the mode has no extended operators, or the pattern
+    has no unescaped `?(`, `*(`, `+(`, `@(`, `!(`. -/
+theorem hasMeta_single_partial (m : Mode) (p t : Str)
     (hm : hasMeta p = false) (hx : m.ext = false ∨ hasExtGroup p = false)
-    (h : globMatch m p t = true) : sameText m t (unescape p) := by
+    (h : globMatch m p t = true) : matchedText m t (unescape p) := by
   unfold globMatch parseGlob at h
+  unfold matchedText
   rcases parseSeq_noMeta m (p.length + 1) false 0 p (Nat.lt_succ_self _) hm hx with hp | ⟨e, hp⟩
   · rw [hp] at h
-    simp only [he, if_true] at h
-    rw [gmatch_full_iff, GDen_litSeq m (unescape p) 0 true t (fun _ => .inl rfl)] at h
-    exact h
+    cases he : m.entire with
+    | true =>
+      simp only [he, if_true] at h ⊢
+      rw [gmatch_full_iff, GDen_litSeq m (unescape p) 0 true t (fun _ => .inl rfl)] at h
+      exact h
+    | false =>
+      simp only [he, Bool.false_eq_true, if_false] at h ⊢
+      rw [search_iff] at h
+      obtain ⟨a, b, c, ht, hd⟩ := h
+      exact ⟨a, b, c, ht, (GDen_litSeq m (unescape p) 0 true b (fun _ => .inl rfl)).mp hd⟩
   · rw [hp] at h
     cases h
 
@@ -61,7 +88,7 @@ theorem hasMeta_single_partial (m : Mode) (p t : Str) (he : m.entire = true)
 theorem hasMeta_single_partial_eq (m : Mode) (p t : Str) (he : m.entire = true)
     (hn : m.nocase = false) (hm : hasMeta p = false) (hx : m.ext = false ∨ hasExtGroup p = false)
     (h : globMatch m p t = true) : t = unescape p :=
-  (sameText_eq hn _ _).mp (hasMeta_single_partial m p t he hm hx h)
+  (sameText_eq hn _ _).mp (by simpa [matchedText, he] using hasMeta_single_partial m p t hm hx h)
 
 def mCase : Mode := Mode.ofNat 68   -- EntireString | ExtendedOperators: the mode of `case` and [[ ]]
 
@@ -89,6 +116,8 @@ example : globMatch (Mode.ofNat 4) (quoteMeta (strOf "a*[b]\\")) (strOf "a*[b]\\
 example : globMatch (Mode.ofNat 4) (quoteMeta (strOf "a*")) (strOf "ab") = false := by decide +kernel
 example : hasMeta (strOf "a\\*[b") = false ∧ globMatch (Mode.ofNat 4) (strOf "a\\*[b") (strOf "a*[b") = true := by
   decide +kernel
+example : globMatch (Mode.ofNat 0) (quoteMeta (strOf "a*")) (strOf "xa*y") = true ∧
+    globMatch (Mode.ofNat 0) (quoteMeta (strOf "a*")) (strOf "xaay") = false := by decide +kernel
 example : hasExtOpener (strOf "?(a)*(b)") = false ∧ hasExtOpener (strOf "@(a)") = true := by decide +kernel
 
 end ShVerif.C18
